@@ -47,7 +47,19 @@ Obj1 == { <<"obj", <<<<k, a>>>>>> : k \in KeysC, a \in Small } \cup { <<"obj", <
                 <<"obj", <<<<<<128512>>, <<"int", <<49>>>>>>, <<<<126>>, <<"int", <<50>>>>>>, <<<<233, 233, 233, 233>>, <<"str", <<233, 233, 233, 233>>>>>>>>>> }
 Nested == { <<"arr", <<x, <<"int", <<49>>>>, x>>>> : x \in {y \in Arr1 \cup Obj1 : Len(y[2]) = 2} } \cup
           { <<"obj", <<<<<<97>>, x>>, <<<<98>>, <<"arr", <<x, x>>>>>>>>>> : x \in {y \in Arr1 \cup Obj1 : Len(y[2]) = 2} }
-Values == Scalars \cup Arr1 \cup Obj1 \cup (IF Big THEN Nested ELSE {y \in Nested : y[1] = "arr"})
+\* (carry) a token that goes through the parser's scratch buffer (a number of any class, a string or member name with an escape) directly
+\* followed by a nested container whose FIRST element is a number of either sign / class or a string: nothing of the earlier token may
+\* carry over into the later one when the text is parsed back
+Prev == { <<"int", <<49, 50, 51>>>>, <<"int", <<45, 49>>>>, <<"dbl", <<63,248,0,0,0,0,0,0>>>>, <<"dbl", <<191,240,0,0,0,0,0,0>>>>, <<"str", <<34, 233, 47>>>>,
+          <<"big", <<49,56,52,52,54,55,52,52,48,55,51,55,48,57,53,53,49,54,49,54>>>> }
+First == { <<"int", <<45, 49>>>>, <<"int", <<49>>>>, <<"int", <<48>>>>, <<"dbl", <<191,240,0,0,0,0,0,0>>>>, <<"dbl", <<63,248,0,0,0,0,0,0>>>>,
+           <<"big", <<45,57,50,50,51,51,55,50,48,51,54,56,53,52,55,55,53,56,48,57>>>>, <<"str", <<97>>>> }
+Carry == { <<"arr", <<q, <<"arr", <<f>>>>>>>> : q \in Prev, f \in First }
+         \cup { <<"arr", << <<"arr", <<q, q>>>>, <<"arr", <<f, q>>>> >>>> : q \in Prev, f \in First }
+         \cup { <<"obj", << <<<<34, 92>>, <<"arr", <<f>>>>>> >>>> : f \in First }
+         \cup { <<"obj", << <<<<97>>, q>>, <<<<98>>, <<"arr", <<f, f>>>>>> >>>> : q \in Prev, f \in First }
+         \cup { <<"arr", <<q, <<"obj", << <<<<97>>, f>> >>>>>>>> : q \in Prev, f \in First }
+Values == Scalars \cup Arr1 \cup Obj1 \cup (IF Big THEN Nested ELSE {y \in Nested : y[1] = "arr"}) \cup Carry
 \* scalars with every option vector; containers with every option vector too (layout options only matter there)
 Init == phase = 0 /\ v = <<"null">> /\ o = Default
 Next == phase = 0 /\ phase' = 1 /\ v' \in Values /\ o' \in (IF v'[1] \in {"arr", "obj"} \/ v'[1] = "str" THEN Opts ELSE {Default, [Default EXCEPT ![1] = 0]})
